@@ -278,6 +278,16 @@ def versionedDepOnProvided (w : List Text) (s : List Pkg) : Bool :=
       q.provides.any fun pr => provName pr = con.name && !(parseConstraint pr).version.isEmpty
   w.any hit || s.any fun p => p.deps.any hit
 
+/-- F09l: a member's dependency whose operator run is not an operator (`b==x`, `b><x`, …): it reads as "any
+version" but keeps the version text, and the text does not parse.  The candidate filter and `constrain` ignore the
+text; the `selected` shortcut of `getPackageDependencies` parses it and fails — so whether the resolution succeeds
+depends on whether the dependency's name is already selected, i.e. on the visiting order, which the lock changes. -/
+def anyOpJunkVersion (s : List Pkg) : Bool :=
+  s.any fun p => p.deps.any fun d =>
+    !isConflict d &&
+    let con := parseConstraint d
+    con.dep = .any && !con.version.isEmpty && (pv con.version).isNone
+
 /-- first class that applies, in a fixed order; `unlisted` when none does -/
 def relockClass (u : Universe) (w : List Text) (s : List Pkg) : String :=
   if pinLost w s then "F09a"
@@ -287,6 +297,7 @@ def relockClass (u : Universe) (w : List Text) (s : List Pkg) : String :=
   else if versionedDepOnProvided w s then "F09h"
   else if hasInstallIf u then "F09c"
   else if dupNameVersion u s then "F09d"
+  else if anyOpJunkVersion s then "F09l"
   else "unlisted"
 
 /-! ### byte ranges recorded by `LockCmd` (expressions regenerated from the source, see Generated/Lock.lean) -/
